@@ -479,13 +479,32 @@ fn forked(path: &str, seg: usize, f: impl FnOnce(&mut Trace)) {
     let pid = unsafe { libc::fork() };
     if pid == 0 {
         let file = std::fs::OpenOptions::new().append(true).open(path).expect("append trace");
+        let file = {
+            use std::os::unix::io::{FromRawFd, IntoRawFd};
+            unsafe { std::fs::File::from_raw_fd(hi(file.into_raw_fd())) }
+        };
         let mut tr = Trace::from_file(file);
         f(&mut tr);
         tr.flush();
         unsafe { libc::_exit(0) };
     }
+    // watchdog: a request that never returns (e.g. a blocking open of a FIFO) is data as well
     let mut status = 0;
-    unsafe { libc::waitpid(pid, &mut status, 0) };
+    let deadline = std::time::Instant::now() + std::time::Duration::from_secs(env_u64("PT_SEG_TIMEOUT", 30));
+    loop {
+        let r = unsafe { libc::waitpid(pid, &mut status, libc::WNOHANG) };
+        if r == pid {
+            break;
+        }
+        if std::time::Instant::now() > deadline {
+            unsafe {
+                libc::kill(pid, libc::SIGKILL);
+                libc::waitpid(pid, &mut status, 0);
+            }
+            break;
+        }
+        std::thread::sleep(std::time::Duration::from_millis(2));
+    }
     if !(libc::WIFEXITED(status) && libc::WEXITSTATUS(status) == 0) {
         // last line of the trace (only the tail of the file is read)
         let text = {
